@@ -48,6 +48,10 @@ func TestModel(t *testing.T) {
 		cfg := hist.Cfg{Observers: true, Methods: []string{"GET", "POST", "PATCH", "FOO"}}
 		cfg.QuietTxn = gen.Chance(t, 1, 2, "quietTxn")
 		g := hist.GenCfg{Txn: true, Managed: true, MaxBody: 4}
+		if gen.Chance(t, 1, 6, "snapshots") {
+			// every reader of the registered set counts, snapshots and iterators of an open transaction included
+			cfg.Snapshots, g.Snapshots = true, true
+		}
 		hist.RunRapid(t, "history", cfg, g, after)
 	})
 }
